@@ -418,7 +418,8 @@ class FitEngine(Engine):
         if rng.random() < 0.12:
             scn["logging"] = rng.choice(["INFO", "DEBUG"])  # the application has logging switched on
         if rng.random() < 0.1:
-            scn["interrupt"] = {"frac": rng.random()}  # Ctrl-C inside fit_peaks, then the same call again
+            # Ctrl-C inside fit_peaks, then the same call again or the next spectrum of the same kind
+            scn["interrupt"] = {"frac": rng.random(), "then": rng.choice(["same", "next"])}
         if rng.random() < 0.12:
             scn["interleave"] = {"frac": rng.random(), "where": rng.choice(["site", "site", "line"]),
                                  "other_seed": scn["truth"]["seed"] if rng.random() < 0.3 else rng.randrange(1 << 30)}
@@ -489,7 +490,15 @@ class FitEngine(Engine):
         else:
             pts = [min(total - 1, int(it["frac"] * total)) if total else 0]
         want = [canon_result(r) for r in R]
-        for at in pts:
+        # the next call after the interruption is either the same call again or the next spectrum of
+        # the same kind (same grid, estimates and windows, other counts): its undisturbed result
+        twin = copy.deepcopy({k: v for k, v in scn.items() if k not in ("interrupt", "interleave")})
+        twin["truth"]["seed"] = (scn["truth"]["seed"] * 7919 + 13) % (1 << 31)
+        twin["faults"] = {"mode": "none"}
+        da_t = make_data(twin)[0]
+        Rt, et, _ = self._fit(twin, ctx, da_t, twin["estimates"], twin["windows"], None, None, "next spectrum alone")
+        want_t = None if et is not None else [canon_result(r) for r in Rt]
+        for n_pt, at in enumerate(pts):
             ctx.fault_configured("interrupt_in_fit")
             try:
                 seams.Preemptor(prefixes, {at: seams.interrupt_now}).run(
@@ -500,6 +509,23 @@ class FitEngine(Engine):
                 _STATE.update(plan=None, log=None, keymap=None, ctx=None)
             ctx.fault_fired("interrupt_in_fit")
             ctx.log("interrupted", at, total)
+            if want_t is not None and (it.get("then") == "next" or (it.get("sweep") and n_pt % 2 == 1)):
+                R3, e3, _ = self._fit(twin, ctx, da_t, twin["estimates"], twin["windows"], None, None,
+                                      "next spectrum after interrupt")
+                ctx.probe("next_spectrum_after_interruption")
+                if e3 is not None:
+                    ctx.violate("raised", f"after an interruption at line event {at}/{total} fit_peaks on the next "
+                                f"spectrum raised {e3}", kind="raised:after_interrupt", _hint={"int_at": at})
+                    return
+                got = [canon_result(r) for r in R3]
+                if got != want_t:
+                    k = next((j for j, (a, b) in enumerate(zip(got, want_t, strict=False)) if a != b), 0)
+                    ctx.violate("isolation", f"after an interruption at line event {at}/{total} the call on the next "
+                                f"spectrum (same grid and windows) returns {R3[k].assessment.name} for peak {k}, "
+                                f"undisturbed it returns {Rt[k].assessment.name}", kind="isolation:after_interrupt",
+                                _hint={"int_at": at})
+                    return
+                continue
             R2, e2, _ = self._fit(scn, ctx, da, scn["estimates"], scn["windows"], None, None, "again after interrupt")
             if e2 is not None:
                 ctx.violate("raised", f"after an interruption at line event {at}/{total} fit_peaks raised {e2}",
